@@ -21,6 +21,7 @@
   store still write into it (`C11_shutdown_corner`).
 -/
 import CachedProofs.Properties.C11
+import CachedProofs.Properties.C12
 import CachedProofs.LayerB.Theorems
 import CachedProofs.LayerB.Refine
 
